@@ -281,12 +281,19 @@ class graph(Graph):
             return self.add_vertex(v, support=overlay)
         else:
             oldnode.misc["cut"] = cutdone
+            # v may run into the blocks that were cut from oldnode before:
+            i = mz.locate(vaddr)
+            if i is not None and i + 1 < len(mz._map):
+                nextnode = mz._map[i + 1].data.val
+                if vaddr + len(v) > nextnode.data.address:
+                    v.cut(nextnode.data.address)
             v = super(graph, self).add_vertex(v)  # ! avoid recursion for add_edge
             mz.write(vaddr, v)
-            self.add_edge(link(oldnode, v))
-            for n in oldnode.N(+1):
+            # the successors of the old block now follow its second half:
+            for n in list(oldnode.N(+1)):
                 self.add_edge(link(v, n))
                 self.remove_edge(oldnode.e_to(n))
+            self.add_edge(link(oldnode, v))
             return v
 
     def add_vertex(self, v, support=None):
